@@ -758,3 +758,8 @@ Definition quiescent (s : istate) : Prop :=
   is_outstanding s = 0%nat /\ is_fault s = None /\ NoDup (map fst (is_rules s)) /\
   forall k, kind_of s k <> KScanning /\ kind_of s k <> KWaiting /\ kind_of s k <> KComputing /\
             ri_paused (rinfo_of s k) = [] /\ ri_deferred (rinfo_of s k) = [].
+
+(* the states of a build: any sequence of steps from the state executeTasks starts in, the engine being quiescent before *)
+Definition in_build (rules : key -> rule) (env : key -> N) (F : key -> N -> list value -> list N -> N -> N) (ord : key -> list rkind)
+  (syncp : key -> bool) (s0 : istate) (root : key) (s : istate) : Prop :=
+  quiescent s0 /\ msteps rules env F ord syncp (start_build (iemit (bump s0) (EBuildStart root)) root) s.
